@@ -81,12 +81,14 @@ func h08a(w int, thorough bool) {
 		pads = append(pads, 0, 1, 2, 3, 4)
 	}
 	pad := pads[vxChoice(len(pads))]
-	data := make([]byte, 0, pad+w+1)
+	data := make([]byte, 0, pad+w+32)
 	for i := 0; i < pad; i++ {
 		data = append(data, ' ')
 	}
 	data = append(data, content...)
-	data = append(data, '\n')
+	// enough trailing text that the buffer is full when the content reaches the 1020/1024 boundary
+	tail := " tail of the line\nzz\n"
+	data = append(data, tail...)
 	r := &vxChunkReader{data: data, failAt: -1}
 	if thorough {
 		r.chunks = []int{vxChunkMenu[vxChoice(len(vxChunkMenu))], vxChunkMenu[vxChoice(len(vxChunkMenu))]}
@@ -94,7 +96,7 @@ func h08a(w int, thorough bool) {
 		r.chunks = []int{[]int{1, 1020, 1021, 4096}[vxChoice(4)], []int{3, 4096}[vxChoice(2)]}
 	}
 	r.eofWithData = vxBool()
-	ref := append(append([]byte{}, content...), '\n')
+	ref := append(append([]byte{}, content...), tail...)
 	if vxNative() {
 		got, err := vxTokenize(r)
 		vxAssert("no-error", err == nil)
